@@ -242,3 +242,23 @@ _R7 = {
 for _pid, _extra in _R7.items():
     _ref, _tech, _text, _note = CHECKS[_pid]
     CHECKS[_pid] = (_ref, _tech, _text + _extra, _note)
+
+# rounds g3 / r8 and the probes behind the model's hooks (DESIGN 28.11, 28.12)
+_R8 = {
+    "C02": " What a replay answers with is read from the details object of the operation's own type (CheckpointedResult.create_from_operation, arm by arm).",
+    "C03": " Every use of what a user strategy returned lies inside the guard that records the failure; after an update is enqueued create_checkpoint raises only "
+           "invocation-ending (BaseException-only) errors; the completion mailbox waits as long as its caller says.",
+    "C05": " The client passes the batch, the token and the marker through to the service API unchanged and decodes the whole response.",
+    "C07": " Branch state transitions land where the done-callback and the resume timer assume (typestate table read off the transition methods and the verdict).",
+    "C09": " The booking methods write their own counter under the lock; complete() / fail() land in the status their payload is read from; the order rules apply only "
+           "where the order is observable.",
+    "C10": " After a blocking checkpoint the orphan state is asked again before the user function; the read-only query asks what the guard in create_checkpoint asks.",
+    "C11": " After the enqueue, create_checkpoint raises nothing an executor's `except Exception` could take for a failure of the operation's body.",
+    "C12": " A step found READY runs the attempt; the pre-jitter delay of the packaged strategies has a finite lower bound.",
+    "C15": " Encoder and decoder convert under the same interpreter settings.",
+    "C17": " (The interpreter runs @contextmanager generators in place, so a visited-mark moved into one is judged like a try/finally.)",
+    "C20": " Wire keys of reader-only and writer-only classes are compared with the API shapes of botocore's service model; every member of a response shape is read.",
+}
+for _pid, _extra in _R8.items():
+    _ref, _tech, _text, _note = CHECKS[_pid]
+    CHECKS[_pid] = (_ref, _tech, _text + _extra, _note)
